@@ -38,6 +38,7 @@ type c16node struct {
 type c16cfg struct {
 	tcp         bool
 	newTime     bool
+	rcvNewTime  *bool // the receiving side's MsgpackUseNewTimeFormat when it differs (a node-by-node rollout of the option)
 	maxPool     int
 	maxInFlight int
 	timeout     time.Duration
@@ -532,6 +533,10 @@ func newC16pair(nw *c16network, name string, cfg c16cfg) *c16pair {
 	rc := cfg
 	sc := cfg
 	sc.heartbeat = false
+	if cfg.rcvNewTime != nil {
+		// decoding accepts both time formats whatever the node's own setting
+		rc.newTime = *cfg.rcvNewTime
+	}
 	return &c16pair{name: name, cfg: cfg, snd: newC16node(nw, sc), rcv: newC16node(nw, rc)}
 }
 func (p *c16pair) close() { p.snd.close(); p.rcv.close() }
@@ -875,12 +880,14 @@ func c16partA(cw *caseWriter, r *rng, nw *c16network, thorough bool) {
 		{tcp: true, newTime: false, heartbeat: true},
 		{tcp: false, newTime: true, heartbeat: true},
 		{tcp: true, newTime: true, heartbeat: false},
+		{tcp: false, newTime: true, rcvNewTime: new(bool), heartbeat: false}, // sender new format, receiver default
+		{tcp: false, newTime: false, rcvNewTime: func() *bool { b := true; return &b }(), heartbeat: true},
 	}
 	var pairs []*c16pair
 	for i, c := range cfgs {
 		c.maxPool = 1 + i%3
 		c.timeout = 5 * time.Second
-		c.maxInFlight = []int{0, 4, 2, 130}[i]
+		c.maxInFlight = []int{0, 4, 2, 130, 3, 5}[i]
 		pairs = append(pairs, newC16pair(nw, fmt.Sprintf("a%d", i), c))
 	}
 	defer func() {
